@@ -631,7 +631,7 @@ func (l *Linter) check(
 		}
 	}
 
-	all = l.filterErrors(all, cfg.PathConfigs(path))
+	all = l.filterErrors(all, cfg.PathConfigs(l.pathFromProjectRoot(path, project)))
 
 	for _, err := range all {
 		err.Filepath = path // Populate filename in the error
@@ -645,6 +645,24 @@ func (l *Linter) check(
 	}
 
 	return all, nil
+}
+
+// pathFromProjectRoot returns the path of the checked file relative to the root directory of the
+// project. Glob patterns in "paths" config are matched against it. The path parameter is an absolute
+// path or a path relative to the working directory, which is not always the root of the project.
+func (l *Linter) pathFromProjectRoot(path string, project *Project) string {
+	if project == nil {
+		return path
+	}
+	p := path
+	if !filepath.IsAbs(p) {
+		p = filepath.Join(l.cwd, p)
+	}
+	r, err := filepath.Rel(absPath(project.RootDir()), absPath(p))
+	if err != nil || r == ".." || strings.HasPrefix(r, ".."+string(filepath.Separator)) {
+		return path // The file is outside the project
+	}
+	return r
 }
 
 func (l *Linter) filterErrors(errs []*Error, cfgs []PathConfig) []*Error {
